@@ -183,6 +183,13 @@ def run(tier: str, seed: int) -> int:
     run_.exhaustive = True
     run_.assumptions = ["numpy cos for analytic values", "tolerance 1e-10 relative"]
     shutil.rmtree(work, ignore_errors=True)
+    # layout arithmetic for EVERY N (Apalache, unbounded integers): BlocksAllN, RightKeepsAllN
+    from .. import tlc as _tlc
+    for _inv in ['BlocksAllN', 'RightKeepsAllN']:
+        _ok, _wall, _tail = _tlc.run_apalache("Lemmas_apa", _inv)
+        run_.extra.setdefault("all_N_lemmas_apalache", {})[_inv] = _ok
+        if not _ok:
+            run_.violation({"kind": "spec", "invariant": _inv, "what": "all-N lemma refuted"}, {"apalache": _tail})
     # the composed machine (spec/Session.tla): multi-step API sessions generated by TLC -simulate, replayed call by call; this check
     # reports the mismatches of the operations it owns (resample)
     if True:
